@@ -1,6 +1,7 @@
 import reprlib
 import sys
 from collections.abc import MutableSequence, MutableSet, Sequence
+from collections.abc import Set as AbstractSet
 from typing import Any, Callable, Generic, Iterable, Optional, Tuple, Type, TypeVar
 
 from spec_classes.errors import BaseTypeError
@@ -322,6 +323,31 @@ class KeyedSet(Generic[ItemType, KeyType], MutableSet, KeyedBase):  # pylint: di
             key=self._key,
             enforce_item_equivalence=self.enforce_item_equivalence,
         )
+
+    # The `Set` mixins implement `-`, `^`, `<=`, `<` and `&=` by asking the
+    # *other* operand whether it contains our items. A built-in set would
+    # answer by hash and equality of whole items (and cannot be asked about
+    # unhashable ones), so it is first viewed through our own key function.
+
+    def _keyed_operand(self, other):
+        if isinstance(other, AbstractSet) and not isinstance(other, KeyedSet):
+            return type(self)(other, key=self._key)
+        return other
+
+    def __le__(self, other):
+        return super().__le__(self._keyed_operand(other))
+
+    def __lt__(self, other):
+        return super().__lt__(self._keyed_operand(other))
+
+    def __sub__(self, other):
+        return super().__sub__(self._keyed_operand(other))
+
+    def __xor__(self, other):
+        return super().__xor__(self._keyed_operand(other))
+
+    def __iand__(self, other):
+        return super().__iand__(self._keyed_operand(other))
 
     def __contains__(self, item_or_key):
         # Check whether item_or_key exists as a key
